@@ -296,3 +296,96 @@ func C14_DumpLayout() {
 	verif.Assert(bytes.Equal(d.Encode(), b.Bytes()), "re-encoding gives the same bytes")
 	verif.Reach("decoded")
 }
+
+// c14Sizes: operand values at the edges of the varint size classes (1 byte up
+// to 240, 2 bytes up to 2287, 3 bytes from 2288) and at multiples of 256.
+var c14Sizes = []int{3, 15, 16, 239, 240, 241, 255, 256, 257, 299, 495, 496, 511, 512, 767, 1000, 2286, 2287, 2288, 2289}
+
+// C14_Wide: hand-assembled 1.1 files whose operands (constant index, local
+// slot, POPN count, field-name index, block type/name index, BIND type index)
+// need one, two and three varint bytes, and files with string constants and
+// names up to several 4096-byte buffers, loaded and executed by the
+// implementation against the reference machine.
+func C14_Wide() {
+	a := &asm{}
+	var d *refbcl.Dump
+	ints := func(n int) []any {
+		cs := make([]any, n)
+		for i := range cs {
+			cs[i] = 1000 + i
+		}
+		return cs
+	}
+	switch verif.Choice("case", 6) {
+	case 0: // CONST idx
+		idx := c14Sizes[verif.Choice("idx", len(c14Sizes))]
+		cs := ints(idx + 2)
+		cs[idx] = smallInt("c")
+		a.op(refbcl.OpCONST).uv(idx).op(refbcl.OpPRINT).op(refbcl.OpCONST).uv(idx + 1).op(refbcl.OpPRINT).op(refbcl.OpRET)
+		d = a.dump(cs...)
+	case 1: // SETLOCAL / GETLOCAL slot, POPN slot+1
+		sizes := []int{3, 239, 240, 241, 255, 256, 257, 299, 495, 496, 511, 512, 767, 1000}
+		slot := sizes[verif.Choice("slot", len(sizes))]
+		for i := 0; i <= slot; i++ {
+			a.op(refbcl.OpCONST).uv(0)
+		}
+		a.op(refbcl.OpCONST).uv(1).op(refbcl.OpSETLOCAL).uv(slot).op(refbcl.OpPOP)
+		a.op(refbcl.OpGETLOCAL).uv(slot).op(refbcl.OpPRINT)
+		a.op(refbcl.OpGETLOCAL).uv(slot - 1).op(refbcl.OpPRINT)
+		a.op(refbcl.OpPOPN).uv(slot + 1).op(refbcl.OpRET)
+		d = a.dump(smallInt("a"), smallInt("b"))
+	case 2: // SETFIELD / GETFIELD name index
+		idx := c14Sizes[verif.Choice("idx", len(c14Sizes))]
+		cs := ints(idx + 2)
+		cs[0], cs[1], cs[2] = "t", "n", smallInt("v")
+		cs[idx], cs[idx+1] = "f", "g"
+		a.op(refbcl.OpDEFBLOCK).uv(0).uv(1)
+		a.op(refbcl.OpCONST).uv(2).op(refbcl.OpSETFIELD).uv(idx).op(refbcl.OpPOP)
+		a.op(refbcl.OpGETFIELD).uv(idx).op(refbcl.OpSETFIELD).uv(idx + 1).op(refbcl.OpPOP)
+		a.op(refbcl.OpGETFIELD).uv(idx + 1).op(refbcl.OpPRINT)
+		a.op(refbcl.OpENDBLOCK).op(refbcl.OpRET)
+		d = a.dump(cs...)
+	case 3: // DEFBLOCK type / name index, BIND type index
+		idx := c14Sizes[verif.Choice("idx", len(c14Sizes))]
+		cs := ints(idx + 3)
+		cs[0], cs[1] = "other", ""
+		cs[idx], cs[idx+1], cs[idx+2] = "t", "nm", "f"
+		a.op(refbcl.OpDEFBLOCK).uv(0).uv(1).op(refbcl.OpENDBLOCK)
+		a.op(refbcl.OpDEFBLOCK).uv(idx).uv(idx + 1)
+		a.op(refbcl.OpCONST).uv(2).op(refbcl.OpSETFIELD).uv(idx + 2).op(refbcl.OpPOP)
+		a.op(refbcl.OpENDBLOCK)
+		a.op(refbcl.OpBIND).uv(idx).raw(0x11).op(refbcl.OpRET)
+		d = a.dump(cs...)
+	case 4, 5: // long string constant / long program name, followed by more data
+		lens := []int{0, 1, 95, 96, 240, 241, 2287, 2288, 4095, 4096, 4097, 5000, 8191, 8192, 8193, 12289}
+		n := lens[verif.Choice("len", len(lens))]
+		s := ""
+		if n > 0 {
+			b := make([]byte, n-1)
+			for i := range b {
+				b[i] = byte('a' + i%26)
+			}
+			s = string(b) + verif.String("tail", 1)
+		}
+		a.op(refbcl.OpCONST).uv(0).op(refbcl.OpPRINT).op(refbcl.OpCONST).uv(1).op(refbcl.OpPRINT).op(refbcl.OpRET)
+		if verif.Choice("where", 2) == 0 {
+			d = a.dump(s, smallInt("after"))
+		} else {
+			d = a.dump("short", smallInt("after"))
+			d.Name = s
+		}
+	}
+	if verif.Choice("minor", 2) == 0 {
+		d.Minor = 0 // the loader accepts minor versions up to the current one
+	}
+	rr, err := loadAndRun(d)
+	verif.Assert(err == nil, "hand-assembled dump loads")
+	if err != nil {
+		return
+	}
+	ref := refbcl.Run(d, 10000)
+	verif.Observe("out", rr.Out)
+	verif.Observe("err", errClass(rr.Err))
+	assertSame("wide", rr, ref)
+	verif.Reach("compared")
+}
